@@ -40,6 +40,11 @@ CHECKS["C14"] = ("model_checking",
     "Validation: all 2^6 x 2^6 (must-link, cannot-link) pair sets over three index sets (contiguous, non-contiguous, unordered), two container types, mixed orientations, self pairs and malformed inputs, against a union-find oracle. Training: decorated models x factors x batch sizes x ALL 120 first-epoch permutation answers; in every batch of every epoch the gradient entering back-propagation must equal the real GEMINI gradient plus +-factor*(p_i-p_j) on exactly the rows that hold the constrained samples.",
     "4 indices per index set; n=5 for training; ambiguous inputs (3-column arrays, float indices) excluded.",
     "5/C14")
+CHECKS["C08"] = ("model_checking",
+    "explicit-state BFS over KAURI tree states with the real compiled find_best_split called in every state vs brute-force oracle; plus real Kauri.fit runs with a spy on find_best_split",
+    "States (Z,Y,n_leaves,n_clusters) are explored breadth-first from the root under ANY admissible split and assignment (a superset of the greedy loop), raw arrays as key; in every state the real find_best_split is called on all leaves, each single leaf, each single feature, with double-star disabled, and under a fan-out of indefinite kernels; claimed gain must equal the recomputed objective increase and no admissible alternative may beat it. Hand-seeded >=4-cluster states and greedy Kauri.fit runs (every call checked, bookkeeping state compared with the reference update rule, final score = root + gains) complete it. Two genuine defects of the Cython source are listed as known findings (Cython is not installed: a source fix cannot be built here).",
+    "Compiled extension of the working tree is what is checked; state search capped per root (cap and roots that hit it are reported).",
+    "5/C08")
 NOT_APPLICABLE = {}
 
 def main():
